@@ -171,6 +171,7 @@ Proof. cbv zeta. split; [|split]; vm_compute; reflexivity. Qed.
    as the explicit premise [remove_spec_statement bits]. *)
 From Stevia Require Import Avl.Impl Avl.Tree Avl.Spec Avl.Format Avl.FormatFacts Avl.Inv Avl.LinkInsert
   Avl.LinkSteps Avl.Master Avl.Clauses Avl.Capacity Avl.Quiet.
+From Stevia Require Import Avl.FinalMaster.
 
 (* every history on an initialised buffer returns normally at every step -
    no panic (index, overflow, unwrap, explicit), no loop out of fuel.
@@ -186,12 +187,29 @@ Theorem C12_avl_run_total_fixed : forall bits, remove_spec_statement bits ->
 Proof. exact run_total_fixed. Qed.
 Print Assumptions C12_avl_run_total_fixed.
 
+(* the premise discharged (Avl/FinalMaster.v: the link for [remove] is the
+   theorem [LinkRemove.remove_spec]) *)
+Theorem C12_avl_run_total_fixed_final : forall bits capacity ops,
+  okbits bits -> capacity < 2 ^ bits -> (bits <> 8 -> capacity + 1 < 2 ^ bits) ->
+  Forall no_ext ops ->
+  Forall res_ok (run_c bits (init_c capacity capacity) ops) /\
+  length (run_c bits (init_c capacity capacity) ops) = length ops.
+Proof. exact run_total_fixed_final. Qed.
+Print Assumptions C12_avl_run_total_fixed_final.
+
 Theorem C12_avl_run_total_u8 : forall capacity ops,
   remove_spec_statement 8 -> capacity <= 255 -> Forall no_ext ops ->
   Forall res_ok (run_c 8 (init_c capacity capacity) ops) /\
   length (run_c 8 (init_c capacity capacity) ops) = length ops.
 Proof. exact run_total_u8. Qed.
 Print Assumptions C12_avl_run_total_u8.
+
+Theorem C12_avl_run_total_u8_final : forall capacity ops,
+  capacity <= 255 -> Forall no_ext ops ->
+  Forall res_ok (run_c 8 (init_c capacity capacity) ops) /\
+  length (run_c 8 (init_c capacity capacity) ops) = length ops.
+Proof. exact run_total_u8_final. Qed.
+Print Assumptions C12_avl_run_total_u8_final.
 
 Theorem C12_avl_run_total_u32 : forall capacity ops,
   remove_spec_statement 32 -> capacity + 1 < 2 ^ 32 -> Forall no_ext ops ->
@@ -200,6 +218,13 @@ Theorem C12_avl_run_total_u32 : forall capacity ops,
 Proof. exact run_total_u32. Qed.
 Print Assumptions C12_avl_run_total_u32.
 
+Theorem C12_avl_run_total_u32_final : forall capacity ops,
+  capacity + 1 < 2 ^ 32 -> Forall no_ext ops ->
+  Forall res_ok (run_c 32 (init_c capacity capacity) ops) /\
+  length (run_c 32 (init_c capacity capacity) ops) = length ops.
+Proof. exact run_total_u32_final. Qed.
+Print Assumptions C12_avl_run_total_u32_final.
+
 (* capacities 0, 1, 2 and 255 of the u8 tree, explicitly *)
 Theorem C12_avl_run_total_u8_edges : forall ops,
   remove_spec_statement 8 -> Forall no_ext ops ->
@@ -207,6 +232,13 @@ Theorem C12_avl_run_total_u8_edges : forall ops,
                    length (run_c 8 (init_c c c) ops) = length ops) [0; 1; 2; 255].
 Proof. exact run_total_u8_edges. Qed.
 Print Assumptions C12_avl_run_total_u8_edges.
+
+Theorem C12_avl_run_total_u8_edges_final : forall ops,
+  Forall no_ext ops ->
+  Forall (fun c => Forall res_ok (run_c 8 (init_c c c) ops) /\
+                   length (run_c 8 (init_c c c) ops) = length ops) [0; 1; 2; 255].
+Proof. exact run_total_u8_edges_final. Qed.
+Print Assumptions C12_avl_run_total_u8_edges_final.
 
 (* with buffer growth, as long as the record count plus one fits the index
    width (see C08 for [growth_ok]) *)
@@ -219,6 +251,14 @@ Theorem C12_avl_run_total : forall bits, remove_spec_statement bits ->
 Proof. exact run_total. Qed.
 Print Assumptions C12_avl_run_total.
 
+Theorem C12_avl_run_total_final : forall bits capacity ops,
+  okbits bits -> capacity < 2 ^ bits -> (bits <> 8 -> capacity + 1 < 2 ^ bits) ->
+  growth_ok bits (spec_init capacity) ops ->
+  Forall res_ok (run_c bits (init_c capacity capacity) ops) /\
+  length (run_c bits (init_c capacity capacity) ops) = length ops.
+Proof. exact run_total_final. Qed.
+Print Assumptions C12_avl_run_total_final.
+
 (* from every state of the master invariant *)
 Theorem C12_avl_run_total_from : forall bits, remove_spec_statement bits ->
   forall s t fr term ops,
@@ -226,6 +266,12 @@ Theorem C12_avl_run_total_from : forall bits, remove_spec_statement bits ->
   Forall res_ok (run_c bits s ops) /\ length (run_c bits s ops) = length ops.
 Proof. exact run_total_from. Qed.
 Print Assumptions C12_avl_run_total_from.
+
+Theorem C12_avl_run_total_from_final : forall bits s t fr term ops,
+  Inv bits s t fr term -> okbits bits -> sizecond bits s -> growth_okw bits (abs_of s t) ops ->
+  Forall res_ok (run_c bits s ops) /\ length (run_c bits s ops) = length ops.
+Proof. exact run_total_from_final. Qed.
+Print Assumptions C12_avl_run_total_from_final.
 
 (* every single operation in every reachable state *)
 Theorem C12_avl_step_total : forall bits, remove_spec_statement bits ->
@@ -235,6 +281,13 @@ Theorem C12_avl_step_total : forall bits, remove_spec_statement bits ->
   exists s' out log, step_c bits s o = Ok (s', out, log) /\ reach bits capacity s'.
 Proof. exact reach_total. Qed.
 Print Assumptions C12_avl_step_total.
+
+Theorem C12_avl_step_total_final : forall bits capacity s o,
+  okbits bits -> capacity < 2 ^ bits -> (bits <> 8 -> capacity + 1 < 2 ^ bits) ->
+  reach bits capacity s -> (forall n, o = OExt n -> nrec s + n + 1 < 2 ^ bits) ->
+  exists s' out log, step_c bits s o = Ok (s', out, log) /\ reach bits capacity s'.
+Proof. exact reach_total_final. Qed.
+Print Assumptions C12_avl_step_total_final.
 
 (* a zero-filled buffer with any number of records reads as an empty tree of
    capacity 0 through every read-only query *)
